@@ -1016,6 +1016,10 @@ def generate_c14(seed, tier):
         a_ = scn['noise']
         if float((Tb_ ** 2).max()) / (a_ * (a_ + 1) / 3.0) > 1e3:
             scn['precision'] = 'float64'
+    if np.dtype(scn['tdtype']).kind == 'f':
+        scn['scale'] = rng.stream(seed, 'scale').choice([1, 1, 1, 1e-4, 250.0])
+        if scn['scale'] != 1 and scn['precision'] == 'float32' and scn['tdtype'] == 'float64':
+            scn['precision'] = 'float64'
     hs = rng.stream(seed, 'history')
     scn['build_twice'] = hs.random() < 0.12
     scn['build_fault'] = hs.choice([0, 0, 1, 2, 3]) if hs.random() < 0.12 else None
@@ -1046,6 +1050,10 @@ def c14_data(scn):
     posm = (ptm[:, 0].astype(int) + scn['key']) % k
     Tm = posm[:, None] * gains[None, :] + g.integers(-a, a + 1, (nm, L))
     td = scn['tdtype']
+    sc = scn.get('scale') or 1
+    if sc != 1:
+        # traces in another physical unit (volts instead of ADC counts): everything the statement defines is scale covariant
+        return (Tb * sc).astype(td), vb, (Tm * sc).astype(td), ptm, cval[posm].astype(vb.dtype)
     return Tb.astype(td), vb, Tm.astype(td), ptm, cval[posm].astype(vb.dtype)
 
 
@@ -1099,6 +1107,8 @@ def execute_c14(scn):
     violation = None
     prec = scn['precision']
     tol = compare.tol_for(prec, independent=True)
+    sc_ = float(scn.get('scale') or 1)
+    ttol, ctol = tol * sc_, tol * sc_ * sc_              # absolute terms in the unit of the templates / of the covariance
     sig_tail = [kind, scn['style']]
     c14_faults = {}
     failed_sibling = None
@@ -1174,10 +1184,10 @@ def execute_c14(scn):
                 return {'violation': None, 'inconclusive': True, 'digest': rng.digest(storage.events), 'case': 'illcond', 'nontrivial': False,
                         'faults': {}, 'probes': {'ill_conditioned_covariance': 1}, 'sim_time': storage.seq}
             popm = ~np.isnan(mus).any(axis=1)            # classes with at least one building trace: their template is defined
-            if np.asarray(att.templates).shape != mus.shape or not compare.close(np.asarray(att.templates)[popm], mus[popm], tol):
+            if np.asarray(att.templates).shape != mus.shape or not compare.close(np.asarray(att.templates)[popm], mus[popm], tol, ttol):
                 violation = viol('templates_differ_from_model', ['C14', 'templates_differ_from_model'] + sig_tail,
                                  'maxdiff=%s' % compare.maxdiff(np.asarray(att.templates)[popm] if np.asarray(att.templates).shape == mus.shape else att.templates, mus[popm]))
-            elif not compare.close(att.pooled_covariance, S, tol):
+            elif not compare.close(att.pooled_covariance, S, tol, ctol):
                 violation = viol('covariance_differs_from_model', ['C14', 'covariance_differs_from_model'] + sig_tail,
                                  'maxdiff=%s got=%s want=%s' % (compare.maxdiff(att.pooled_covariance, S), compare.describe(att.pooled_covariance), compare.describe(S)))
             elif hasattr(att, 'pooled_covariance_inv'):
@@ -1198,7 +1208,7 @@ def execute_c14(scn):
                 sib = _c14_attack(scn, scared, storage, Tb, vb, like=failed_sibling)
                 sib.build()
                 probes['sibling_after_failed_build'] = 1
-                if not (compare.close(np.asarray(sib.templates)[popm], mus[popm], tol) and compare.close(sib.pooled_covariance, S, tol)):
+                if not (compare.close(np.asarray(sib.templates)[popm], mus[popm], tol, ttol) and compare.close(sib.pooled_covariance, S, tol, ctol)):
                     violation = viol('sibling_profile_differs_from_model', ['C14', 'sibling_profile_differs_from_model'] + sig_tail,
                                      'attack created on the container of a failed build: templates maxdiff=%s covariance maxdiff=%s' % (
                                          compare.maxdiff(np.asarray(sib.templates)[popm], mus[popm]), compare.maxdiff(sib.pooled_covariance, S)))
@@ -1211,7 +1221,11 @@ def execute_c14(scn):
             scared.set_batch_size(scn['build_rule_2'])
             att2 = _c14_attack(scn, scared, storage, Tb, vb, 'build2')
             att2.build()
-            if not (compare.bitwise(att.templates, att2.templates) and compare.bitwise(att.pooled_covariance, att2.pooled_covariance)):
+            if sc_ != 1:
+                same_build = compare.close(att.templates, att2.templates, tol, ttol) and compare.close(att.pooled_covariance, att2.pooled_covariance, tol, ctol)
+            else:
+                same_build = compare.bitwise(att.templates, att2.templates) and compare.bitwise(att.pooled_covariance, att2.pooled_covariance)
+            if not same_build:
                 violation = viol('build_depends_on_batch_rule', ['C14', 'build_depends_on_batch_rule'] + sig_tail,
                                  'rules %s vs %s: templates maxdiff=%s covariance maxdiff=%s' % (scn['build_rule'], scn['build_rule_2'],
                                                                                             compare.maxdiff(att.templates, att2.templates),
@@ -1222,8 +1236,8 @@ def execute_c14(scn):
             try:
                 att.build()
                 musA, SA, scA = c14_model(np.concatenate([Tb, Tb]), np.concatenate([vb, vb]), classes, Tm, hyp)
-                okA = compare.close(np.asarray(att.templates)[popm], musA[popm], tol) and compare.close(att.pooled_covariance, SA, tol)
-                okB = compare.close(np.asarray(att.templates)[popm], mus[popm], tol) and compare.close(att.pooled_covariance, S, tol)
+                okA = compare.close(np.asarray(att.templates)[popm], musA[popm], tol, ttol) and compare.close(att.pooled_covariance, SA, tol, ctol)
+                okB = compare.close(np.asarray(att.templates)[popm], mus[popm], tol, ttol) and compare.close(att.pooled_covariance, S, tol, ctol)
                 probes['second_build'] = 1
                 if okA and np.linalg.cond(SA) <= 1e3:
                     mus, S, sc = musA, SA, scA
@@ -1367,7 +1381,7 @@ def _cands_c14(scn):
         c['per_class'] = [2] * len(c['per_class'])
         yield c
     for key, val in (('match_cuts', []), ('probe_before_build', False), ('build_rule', 1000), ('build_rule_2', 1000), ('match_rule', 1000),
-                     ('threads', 1), ('tdtype', 'float32'), ('key', 0), ('vdtype', 'uint8'), ('build_twice', False), ('build_fault', None)):
+                     ('threads', 1), ('tdtype', 'float32'), ('key', 0), ('vdtype', 'uint8'), ('build_twice', False), ('build_fault', None), ('scale', 1)):
         if scn.get(key) != val:
             c = copy.deepcopy(scn)
             c[key] = val
